@@ -2,6 +2,7 @@
 X-tie: random edit histories on real PassSequence / unit objects vs coq/lib/UnitTree.v (vm_compute);
 oracle: the property's invariant and navigation/access clauses checked directly on the real objects."""
 import copy
+import numpy as np
 import json
 import random
 import re
@@ -196,6 +197,15 @@ class World:
                 for i in range(len(lst)):
                     if seq[i] is not lst[i] or seq[i - len(lst)] is not lst[i]:
                         out.append(('index-access', f"sequence {q}[{i}]"))
+                    # ... whatever integer type carries the index (a loop over numpy.arange, an argmin)
+                    for ix in (np.int64(i), np.int32(i - len(lst)), np.uint8(i)):
+                        try:
+                            hit = seq[ix]
+                        except Exception as e:      # noqa
+                            hit = type(e).__name__
+                        if hit is not lst[i]:
+                            out.append(('index-access', f"sequence {q}[{ix!r}] gives {hit if isinstance(hit, str) else 'another unit'}, the list gives unit {self.uid_of(lst[i])}"))
+                            break
                 if seq[1:] != lst[1:]:
                     out.append(('slice-access', f"sequence {q}[1:]"))
                 for x in lst:
